@@ -69,3 +69,43 @@ def tsan_guard(ctx, mode):
                        "detail": rr.stderr_tail[-800:]})
     elif rr.rc != 0:
         ctx.notes["tsan_guard"] = "guard run ended with rc %s" % rr.rc
+
+
+# ----------------------------------------------------------------------------------------------
+# whole-system variant (h_sys): real frontend + real BackendWorker under the shim
+
+SYS_SRC = ["engines/wmm/h_sys.cpp"]
+
+
+def build_sys():
+    return vf.build("h_sys", SYS_SRC, ["-O2", "-g", "-I" + vf.VERIF + "/engines/wmm"])
+
+
+def sys_job(exe, mode, sc, passes, ops, ops2="", deadline=600):
+    args = ["--mode", mode, "--sc", sc, "--passes", passes, "--ops", ops, "--deadline", deadline]
+    if ops2:
+        args += ["--ops2", ops2]
+    return (exe, args, deadline + 120)
+
+
+def run_sys(ctx, jobs, what="h_sys"):
+    for rr in vf.run_many(jobs):
+        ctx.absorb(rr, what)
+
+
+def is_sys_record(rec):
+    return str(rec.get("mode", "")).startswith("sys")
+
+
+def replay_sys(prop, rep):
+    exe = build_sys()
+    rec = rep["record"]
+    args = []
+    for kv in rec["config"].split():
+        k, v = kv.split("=", 1)
+        args += ["--" + k, v]
+    rr = vf.run(exe, args + ["--replay", rec["case"]], timeout=300)
+    bad = [r for r in rr.records if r.get("t") == "viol"]
+    for x in bad:
+        print("VIOLATION property=%s replay=(given) detail=%s" % (prop, x))
+    return 1 if bad else 0
